@@ -9,7 +9,7 @@
    integer arrays are lists of Z (or of integral Q for rebin). *)
 From Coq Require Import ZArith QArith Qround Qabs List Bool.
 Import ListNotations.
-From PV Require Import Generated.Smooth Generated.Rebin.
+From PV Require Import Generated.Smooth Generated.Rebin Generated.Uniq.
 Open Scope Z_scope.
 
 (* ------------------------------------------------------------------ common *)
@@ -201,30 +201,34 @@ Fixpoint nonzero_from (i : Z) (bs : list bool) : list Z :=
   end.
 Definition getZ (xs : list Z) (j : Z) : Z := if j <? 0 then 0 else nth (Z.to_nat j) xs 0.
 
+(* numpy.roll(l, k): out[i] = l[(i - k) mod n] *)
+Definition roll {A} (k : Z) (l : list A) : list A :=
+  let n := lenZ l in
+  if n =? 0 then l else
+  let s := Z.to_nat ((- k) mod n) in skipn s l ++ firstn s l.
+
 Section Uniq.
   Variable A : Type.
-  Variable neqb : A -> A -> bool.          (* x != y *)
+  Variable neqb : A -> A -> bool.          (* M: the GENERATED comparison (x != y) applied to the dtype's equality;
+                                              S: the dtype's disequality *)
   Variable dflt : A.
 
-  Definition roll_m1 (l : list A) : list A := match l with [] => [] | x :: t => t ++ [x] end.
-  (* (x != roll(x, -1)).nonzero()[0] *)
-  Definition change_points (x : list A) : list Z :=
-    nonzero_from 0 (map (fun p => neqb (fst p) (snd p)) (combine x (roll_m1 x))).
-  (* M: uniq(x) *)
+  (* (x CMP roll(x, shift)).nonzero()[0] *)
+  Definition change_points_at (shift : Z) (x : list A) : list Z :=
+    nonzero_from 0 (map (fun p => neqb (fst p) (snd p)) (combine x (roll shift x))).
+  (* M: uniq(x); shift, size test, returned subscripts and the all-equal value are GENERATED (Generated/Uniq.v) *)
   Definition uniq (x : list A) : list Z :=
-    match change_points x with
-    | [] => [lenZ x - 1]
-    | ind => ind
-    end.
+    let ind := change_points_at uniq_plain_shift x in
+    if uniq_plain_nonempty (lenZ ind) then map (uniq_plain_pick (fun j => j)) ind
+    else [uniq_plain_constant (lenZ x)].
   (* x[index] (subscripts in range) *)
   Definition take (x : list A) (index : list Z) : list A := map (fun j => nth (Z.to_nat j) x dflt) index.
   (* M: uniq(x, index) *)
   Definition uniq_indexed (x : list A) (index : list Z) : list Z :=
     let q := take x index in
-    match change_points q with
-    | [] => [lenZ q - 1]
-    | ind => map (getZ index) ind
-    end.
+    let ind := change_points_at uniq_indexed_shift q in
+    if uniq_indexed_nonempty (lenZ ind) then map (uniq_indexed_pick (getZ index)) ind
+    else [uniq_indexed_constant (lenZ q)].
 
   (* S: subscript of the last element of every maximal run of equal neighbours *)
   Fixpoint runs_last_from (i : Z) (l : list A) : list Z :=
@@ -238,8 +242,14 @@ Section Uniq.
   Definition runs_last (l : list A) : list Z := runs_last_from 0 l.
 End Uniq.
 
+(* S side: the dtype's disequality *)
 Definition neqbZ (a b : Z) : bool := negb (a =? b).
 Definition neqbQ (a b : Q) : bool := negb (Qeq_bool a b).
+(* M side: the comparison as written in uniq.py (GENERATED), over the dtype's equality *)
+Definition gneqbZ_plain : Z -> Z -> bool := uniq_plain_differs Z.eqb.
+Definition gneqbZ_indexed : Z -> Z -> bool := uniq_indexed_differs Z.eqb.
+Definition gneqbQ_plain : Q -> Q -> bool := uniq_plain_differs Qeq_bool.
+Definition gneqbQ_indexed : Q -> Q -> bool := uniq_indexed_differs Qeq_bool.
 
 (* ================================================================== rebin *)
 
@@ -427,8 +437,11 @@ Definition uniq_indexed_spec {A} (neqb : A -> A -> bool) (dflt : A) (x : list A)
 Definition run_case (c : case) : Z :=
   match c with
   | CSmooth xs ow et tol meta expect =>
-      (* property domain: widths not exceeding the length (and a non-empty array) *)
-      let dom := (ow <=? lenZ xs) && (1 <=? lenZ xs) in
+      (* domain of the specification = hypothesis of C14_smooth_refines_spec: a non-empty array and either no
+         edge_truncate (any width) or width_made_odd - 1 <= n.  It contains the property's "widths not
+         exceeding N" (owidth <= n: owidth = n even gives width n+1, still inside) and its boundary
+         owidth = n+1 odd; owidth >= n+2 with edge_truncate is outside (not a clamped boxcar). *)
+      let dom := (1 <=? lenZ xs) && (negb et || (odd_width ow - 1 <=? lenZ xs)) in
       verdict (eq1_tol tol (smooth xs ow et) expect)
               (negb dom || (meta && eq1_tol tol (smooth_spec xs ow et) expect))
   | CMedian xs even expect =>
@@ -447,17 +460,17 @@ Definition run_case (c : case) : Z :=
               (negb dom || eqb_fres2 (F2Ok (median_filter2_spec x width)) expect)
   | CUniqZ xs None meta expect =>
       let dom := is_sortedb Z.leb xs && (1 <=? lenZ xs) in
-      verdict (eqb_listZ (uniq Z neqbZ xs) expect) (negb dom || (meta && eqb_listZ (runs_last Z neqbZ xs) expect))
+      verdict (eqb_listZ (uniq Z gneqbZ_plain xs) expect) (negb dom || (meta && eqb_listZ (runs_last Z neqbZ xs) expect))
   | CUniqZ xs (Some idx) meta expect =>
       let dom := idx_in_range (lenZ xs) idx && is_sortedb Z.leb (take Z 0 xs idx) && (1 <=? lenZ idx) in
-      verdict (eqb_listZ (uniq_indexed Z neqbZ 0 xs idx) expect)
+      verdict (eqb_listZ (uniq_indexed Z gneqbZ_indexed 0 xs idx) expect)
               (negb dom || (meta && eqb_listZ (uniq_indexed_spec neqbZ 0 xs idx) expect))
   | CUniqQ xs None meta expect =>
       let dom := is_sortedb Qle_bool xs && (1 <=? lenZ xs) in
-      verdict (eqb_listZ (uniq Q neqbQ xs) expect) (negb dom || (meta && eqb_listZ (runs_last Q neqbQ xs) expect))
+      verdict (eqb_listZ (uniq Q gneqbQ_plain xs) expect) (negb dom || (meta && eqb_listZ (runs_last Q neqbQ xs) expect))
   | CUniqQ xs (Some idx) meta expect =>
       let dom := idx_in_range (lenZ xs) idx && is_sortedb Qle_bool (take Q 0%Q xs idx) && (1 <=? lenZ idx) in
-      verdict (eqb_listZ (uniq_indexed Q neqbQ 0%Q xs idx) expect)
+      verdict (eqb_listZ (uniq_indexed Q gneqbQ_indexed 0%Q xs idx) expect)
               (negb dom || (meta && eqb_listZ (uniq_indexed_spec neqbQ 0%Q xs idx) expect))
   | CRebin1 k sample x d tol meta expect =>
       verdict (eqb_rres tol (rebin1 k sample x d) expect) (meta && eqb_rres tol (rebin1_spec k sample x d) expect)
